@@ -341,6 +341,56 @@ class C11Individual(Individual):
     """a user individual class with its own coders"""
 
 
+class C11Lab:
+    """user classes and postprocess hooks nested one, two and three levels deep: their class path has two, three
+    and four (for the hooks up to four) dot-separated parts, e.g. `c11/C11Lab.Models.Deep.Graph`"""
+
+    class Node(OptNode):
+        pass
+
+    class Graph(OptGraph):
+        pass
+
+    class Ind(Individual):
+        pass
+
+    @staticmethod
+    def hook(graph, nodes):
+        c11_postprocess(graph, nodes)
+
+    class Models:
+        class Node(OptNode):
+            pass
+
+        class Graph(OptGraph):
+            pass
+
+        class Ind(Individual):
+            pass
+
+        @staticmethod
+        def hook(graph, nodes):
+            c11_postprocess(graph, nodes)
+
+        class Deep:
+            class Node(OptNode):
+                pass
+
+            class Graph(OptGraph):
+                pass
+
+            class Ind(Individual):
+                pass
+
+            @staticmethod
+            def hook(graph, nodes):
+                c11_postprocess(graph, nodes)
+
+
+def nested_level(depth):
+    return {1: C11Lab, 2: C11Lab.Models, 3: C11Lab.Models.Deep}[depth]
+
+
 def c11_node_to_json(obj):
     # reversible: every parameter value is stored as a tagged JSON string
     from golem.serializers.coders import graph_node_to_json
@@ -414,14 +464,18 @@ def build_graph(spec):
     user = bool(spec.get('user'))
     if user:
         ensure_user_coders()
+    level = nested_level(spec['nested']) if spec.get('nested') else None
+    node_cls = C11Node if user else level.Node if level else OptNode
     for ns in spec['nodes']:
-        n = (C11Node if user else OptNode)(materialise_content(ns['content']))
+        n = node_cls(materialise_content(ns['content']))
         n.uid = ns['uid']
         objs.append(n)
     for ns, n in zip(spec['nodes'], objs):
         n.nodes_from = [objs[p] for p in ns['parents']]
-    kw = {'postprocess_nodes': c11_postprocess} if spec.get('post') else {}
-    if user:
+    kw = {'postprocess_nodes': (level.hook if level else c11_postprocess)} if spec.get('post') else {}
+    if level:
+        graph = level.Graph(**kw)
+    elif user:
         graph = C11Graph(**kw)
         graph.label = 'user-graph'
     elif spec.get('journal'):
@@ -1258,7 +1312,8 @@ def lock_run(spec, ops, via_individual):
     vo = view(graph, known, fo)
     ind_same = True
     if via_individual:
-        icls = C11Individual if spec.get('user') else Individual
+        icls = (C11Individual if spec.get('user') else
+                nested_level(spec['nested']).Ind if spec.get('nested') else Individual)
         ind = icls(graph, fitness=SingleObjFitness(1.0), metadata={'t': 0.5, 'tags': ['a', 1]}, native_generation=3)
         sr = _try(lambda: ind.save())
         if sr[0] != 'ok':        # the property promises that any individual can be saved
@@ -1366,6 +1421,13 @@ def gen_lock_specs(ctx):
             # a user graph class with a constructor-made logger and journal that its editing methods use
             spec['journal'] = True
             spec['kind'] = 'opt'
+        if i % 8 == 6:
+            # user node / graph / individual classes (and, half of the time, a postprocess hook that is a static
+            # method) nested 1, 2 or 3 classes deep: class paths with up to four dot-separated parts
+            spec['nested'] = rng.choice([1, 2, 2, 3, 3])
+            spec['kind'] = 'opt'
+            if rng.random() < 0.5:
+                spec['post'] = True
         if i % 8 == 3:
             # user subclasses of OptNode / OptGraph / Individual with their own (reversible) coders, registered after
             # the serializer's first use: original vs loaded copy
@@ -1374,7 +1436,8 @@ def gen_lock_specs(ctx):
             for ns in nodes:
                 if rng.random() < 0.7:
                     ns['content']['params'] = copy.deepcopy(rng.choice([p for p in PARAMS if p]))
-        out.append((spec, rng.randrange(1 << 30), (i % 5 == 4 or (i % 16 == 3)) and spec['kind'] == 'opt'))
+        out.append((spec, rng.randrange(1 << 30),
+                    (i % 5 == 4 or (i % 16 == 3) or (i % 16 == 6)) and spec['kind'] == 'opt'))
     return out
 
 
@@ -1418,7 +1481,8 @@ def run_lockstep(ctx):
                       raised=(a is None), modelled=(c_op(op, bool(spec.get('post'))) != 'OOther'),
                       duplicate_links=dup, user_postprocess=bool(spec.get('post')), graph_class=spec['kind'],
                       user_coders=bool(spec.get('user')), via_individual=via_ind,
-                      journal_graph=bool(spec.get('journal') or spec.get('user')))
+                      journal_graph=bool(spec.get('journal') or spec.get('user')),
+                      nested_classes=spec.get('nested', 0))
         if not steps:
             ctx.count('lockstep', key=(view_key(vo), 'no-ops'), nontrivial=False, op='none')
         if not r[0]:
@@ -1447,7 +1511,8 @@ def run(ctx):
         'member) is shown to the model as str(name); the typed before/after snapshot of the harness checks that saving '
         'leaves the name object itself unchanged',
         'graphs with a user postprocess function and user graph / node / individual subclasses (own coders, '
-        'constructor-made logger and journal) are compared original-vs-loaded only, without the model',
+        'constructor-made logger and journal, classes and static-method hooks nested up to three classes deep) are '
+        'compared original-vs-loaded only, without the model',
         'json text <-> tree (CPython json.dumps / json.loads: key order = dict order, float printing) is compared '
         'textually by the harness (second text == first text) and not modelled',
         'non-finite floats (inf / -inf / nan, anywhere in params / metadata / fitness) are shown to the model as the '
